@@ -471,6 +471,16 @@ Proof.
   - apply (IH (S j)); [lia|exact H].
 Qed.
 
+(* conversion must unfold float_digits to find_frac and stop there *)
+Local Strategy 1000 [find_frac].
+
+Lemma float_digits_spec : forall x ds fs, float_digits x = Some (ds, fs) ->
+  forallb is_digit ds = true /\ ds <> [] /\ forallb is_digit fs = true /\ fs <> [] /\
+  eval_dec ds (Some fs) = Some x.
+Proof. intros x ds fs H. unfold float_digits in H. apply find_frac_spec in H; [exact H|lia]. Qed.
+
+Opaque float_digits print_N.
+
 (* the numbers that can be elements of a literal: non-negative ints and printable floats *)
 Definition wf_elem (x : num) : bool := (wf_int x || wf_float x)%bool.
 
@@ -488,9 +498,9 @@ Proof.
   intros x H. unfold wf_elem in H. apply orb_true_iff in H as [H|H].
   - destruct (wf_int_inv x H) as [_ Hk]. unfold print_num. rewrite Hk. apply print_N_cons.
   - unfold wf_float in H. apply andb_true_iff in H as [Hk H].
-    unfold print_num. destruct (nkind x); try discriminate.
-    destruct (float_digits x) as [[ds fs]|] eqn:E; [|discriminate].
-    apply find_frac_spec in E as (H1 & H2 & _); [|lia].
+    unfold print_num. destruct (nkind x); [discriminate Hk|discriminate Hk|].
+    destruct (float_digits x) as [[ds fs]|] eqn:E; [|discriminate H].
+    apply float_digits_spec in E as (H1 & H2 & _).
     destruct ds as [|c ds]; [congruence|]. cbn in H1. apply andb_true_iff in H1 as [H1 _].
     exists c, (ds ++ "." :: fs). split; [reflexivity|exact H1].
 Qed.
@@ -506,10 +516,51 @@ Proof.
     + rewrite Ec. discriminate.
     + now apply fstop_num_stop.
   - unfold wf_float in H. apply andb_true_iff in H as [Hk H].
-    unfold print_num. destruct (nkind x); try discriminate.
-    destruct (float_digits x) as [[ds fs]|] eqn:E; [|discriminate].
-    apply find_frac_spec in E as (H1 & H2 & H3 & H4 & H5); [|lia].
+    unfold print_num. destruct (nkind x); [discriminate Hk|discriminate Hk|].
+    destruct (float_digits x) as [[ds fs]|] eqn:E; [|discriminate H].
+    apply float_digits_spec in E as (H1 & H2 & H3 & H4 & H5).
     unfold number. rewrite <- app_assoc. cbn [app]. rewrite lex_dec_frac; auto.
-    + now rewrite H5.
+    + change (match eval_dec ds (Some fs) with Some x0 => Some (x0, y) | None => None end = Some (x, y)).
+      now rewrite H5.
     + destruct y as [|c y]; [exact I|]. cbn in *. now apply follow_not_digit.
+Qed.
+
+(* ------------------------------------------------------------------ *)
+(* str / bytes literals *)
+
+Lemma sbody_esc_char : forall bm q a tl, (q = chr 34 \/ q = chr 39) ->
+  sbody bm q (esc_char bm q a ++ tl) = cons1 (code a) (sbody bm q tl).
+Proof.
+  intros bm q a tl [-> | ->]; destruct bm; all_chars a; vm_compute; reflexivity.
+Qed.
+
+Lemma sbody_ok : forall bm q s x, (q = chr 34 \/ q = chr 39) -> forallb small s = true ->
+  sbody bm q (flat_map (fun c => esc_char bm q (chr c)) s ++ q :: x) = Some (s, x).
+Proof.
+  intros bm q s x Hq. induction s as [|c s IH]; intros Hs.
+  - cbn [flat_map app sbody]. now rewrite Ascii.eqb_refl.
+  - cbn in Hs. apply andb_true_iff in Hs as [Hc Hs].
+    cbn [flat_map]. rewrite <- app_assoc, sbody_esc_char by exact Hq.
+    rewrite IH by exact Hs. cbn. now rewrite code_chr.
+Qed.
+
+Lemma pick_quote_cases : forall s, pick_quote s = chr 34 \/ pick_quote s = chr 39.
+Proof. intros s. unfold pick_quote. destruct (_ && _)%bool; [left|right]; reflexivity. Qed.
+
+Lemma lit_string_str : forall s x, forallb small s = true ->
+  lit_string (print_quoted false s ++ x) = Some (PStr s, x).
+Proof.
+  intros s x Hs. unfold print_quoted.
+  destruct (pick_quote_cases s) as [E|E]; rewrite E; cbn [app]; rewrite <- app_assoc; cbn [app];
+    unfold lit_string; cbn [is_quote code chr ascii_of_N ascii_of_pos N_of_ascii N_of_digits N.eqb Pos.eqb orb N.add N.mul];
+    (rewrite sbody_ok; [reflexivity|auto|exact Hs]).
+Qed.
+
+Lemma lit_string_bytes : forall s x, forallb small s = true ->
+  lit_string ("b" :: print_quoted true s ++ x) = Some (PBytes None s, x).
+Proof.
+  intros s x Hs. unfold print_quoted.
+  destruct (pick_quote_cases s) as [E|E]; rewrite E; cbn [app]; rewrite <- app_assoc; cbn [app];
+    unfold lit_string; cbn [is_quote code chr ascii_of_N ascii_of_pos N_of_ascii N_of_digits N.eqb Pos.eqb orb N.add N.mul Ascii.eqb Bool.eqb andb];
+    (rewrite sbody_ok; [reflexivity|auto|exact Hs]).
 Qed.
